@@ -85,7 +85,7 @@ impl From<&SecretKeyEnum> for Vec<u8> {
             SecretKeyEnum::G1(sk) => (Bls12381::G1, Vec::from(sk)),
             SecretKeyEnum::G2(sk) => (Bls12381::G2, Vec::from(sk)),
         };
-        output.insert(0, tt as u8);
+        output.insert(0, u8::from(tt));
         output
     }
 }
@@ -141,7 +141,7 @@ impl SecretKeyEnum {
             SecretKeyEnum::G1(sk) => (Bls12381::G1, Vec::from(sk.to_be_bytes())),
             SecretKeyEnum::G2(sk) => (Bls12381::G2, Vec::from(sk.to_be_bytes())),
         };
-        output.insert(0, t as u8);
+        output.insert(0, u8::from(t));
         output
     }
 
@@ -151,7 +151,7 @@ impl SecretKeyEnum {
             SecretKeyEnum::G1(sk) => (Bls12381::G1, Vec::from(sk.to_le_bytes())),
             SecretKeyEnum::G2(sk) => (Bls12381::G2, Vec::from(sk.to_le_bytes())),
         };
-        output.insert(0, t as u8);
+        output.insert(0, u8::from(t));
         output
     }
 
